@@ -1,0 +1,25 @@
+//go:build verif
+
+// Contracts for package stream_api_accept, checked by /verif (bfvc). Comment-only.
+package stream_api_accept
+
+// C34. Invariant established by NewController: protocolID is a valid protocol ID.
+
+//@ func NewController
+//@   noframe
+//@   ensures ret1 == nil ==> ret0 != nil && ret0.protocolID != ""
+
+//@ func (*Controller).resolveHandleMountedStream
+//@   noframe
+//@   requires c.protocolID != ""
+//@   ensures ret0 != nil ==> dir.HandleMountedStreamProtocolID() == c.protocolID
+//@   ensures ret0 != nil ==> c.localPeerID == "" || dir.HandleMountedStreamLocalPeerID() == c.localPeerID
+//@   ensures ret0 != nil ==> len(c.remotePeerIDs) == 0 || dir.HandleMountedStreamRemotePeerID() in c.remotePeerIDs
+
+//@ func (*Controller).HandleDirective
+//@   noframe
+//@   requires c.protocolID != ""
+//@   ensures ret0 != nil ==> implements(di.GetDirective(), link.HandleMountedStream)
+//@   ensures ret0 != nil ==> as(di.GetDirective(), link.HandleMountedStream).HandleMountedStreamProtocolID() == c.protocolID
+//@   ensures ret0 != nil ==> c.localPeerID == "" || as(di.GetDirective(), link.HandleMountedStream).HandleMountedStreamLocalPeerID() == c.localPeerID
+//@   ensures ret0 != nil ==> len(c.remotePeerIDs) == 0 || as(di.GetDirective(), link.HandleMountedStream).HandleMountedStreamRemotePeerID() in c.remotePeerIDs
